@@ -8,4 +8,4 @@ out=$(VERIF_REPO=$d /verif/check $pid --tier quick 2>&1 | grep "^VIOLATION" | gr
 rm -rf $d
 f=$(echo "$out" | sed 's/.*replay=//')
 if [ -n "$f" ] && [ -f "$f" ]; then cp "$f" "$dest"; echo "witness: $dest"; head -3 "$dest" | cut -c1-200; else echo "no violation found: $out"; fi
-cd /verif && git checkout -- evidence 2>/dev/null
+true
